@@ -8,7 +8,7 @@ REPO = os.environ.get('REPO', '/repo')
 import hashlib
 key = hashlib.md5((REPO + '\n').encode()).hexdigest()[:8]
 B = f'{V}/build/tsan-{key}'
-subprocess.run(['make', '-s', '-j16', '-f', f'{V}/engines/vsched/Makefile', f'REPO={REPO}', 'FLAVOUR=tsan', 'audit'], check=True)
+subprocess.run(['make', '-s', '-j16', '-f', f'{V}/engines/vsched/Makefile', f'V={V}', f'REPO={REPO}', 'FLAVOUR=tsan', 'audit'], check=True)
 RUNS = [
     ('rt_audit', 'c04', dict(exposure=4, n=3, ringf=2, ringx=8, client=1)),
     ('rt_audit', 'c04', dict(exposure=4, n=3, ringf=1, ringx=1, append_ms=25)),
